@@ -386,6 +386,10 @@ def write_evidence(pid, ev):
         json.dump(ev, f, indent=1, sort_keys=True)
         f.write("\n")
     os.replace(p + ".tmp", p)
+    # the same record kept per tier (evidence/<id>.json is always the latest run, whichever tier it was)
+    bt = os.path.join(EVID, "by_tier")
+    os.makedirs(bt, exist_ok=True)
+    shutil.copyfile(p, os.path.join(bt, "%s.%s.json" % (pid, ev.get("tier", "quick"))))
 
 
 def run_driver(exe, args, timeout=900, env=None, cwd=None):
